@@ -585,6 +585,7 @@ func BuildFromAliasedTable(query *Query, as string, expr sqlparser.SimpleTableEx
 		}
 	case *sqlparser.DerivedTable:
 		{
+			query.ident = as
 			subquery, err := Prepare(query.data, expr.Select, query.options)
 			if err != nil {
 				return err
